@@ -177,10 +177,24 @@ func one(c *mon.Ctx, codec frame.RawCodec, comp string, cs gen.Case, id string, 
 	d.Bytes = lazyHex(b)
 	rd := bytes.NewReader(b)
 	var src io.Reader = rd
-	if hash(id)%3 == 1 {
+	var reused *bytes.Buffer
+	switch hash(id) % 3 {
+	case 1:
 		src = &chunkReader{r: rd, n: 1 + int(hash(id)>>4)%11} // short reads, as a socket or bufio.Reader delivers them
+	case 2:
+		// a *bytes.Buffer that the caller overwrites after decoding: the decoded frame must own its memory
+		reused = bytes.NewBuffer(append(make([]byte, 0, len(b)+16), b...))
+		src = reused
 	}
 	f2, err := codec.DecodeFrame(src)
+	if reused != nil {
+		rd = bytes.NewReader(nil) // everything was consumed iff the buffer is empty
+		if reused.Len() != 0 {
+			rd = bytes.NewReader(reused.Bytes())
+		}
+		reused.Reset()
+		reused.Write(bytes.Repeat([]byte{0xEE}, len(b)))
+	}
 	if err != nil {
 		d.Err = err.Error()
 		c.Violation("decode-error/"+comp+"/"+errClass(err), d)
